@@ -499,3 +499,25 @@ class GetEncoder(Contract):
     def raises_when(self, c):
         from neuroglancer_scripts.chunk_encoding import InvalidInfoError
         return [(InvalidInfoError, Not(self._ok()))]
+
+
+@register
+class LeBytesRoundTrip(Lemma):
+    """little-endian byte decomposition and recomposition are inverse (used by frombuffer(tobytes()))"""
+    name = "lemma:le-bytes-roundtrip"
+    props = ("C03", "C02", "C10", "C17")
+    configs = (1, 2, 4, 8)
+
+    def run(self, c, n):
+        from pyvc.sbytes import _byte_of, le_compose
+        e = c.int("e", inp=True)
+        c.assume(And(e >= 0, e < (1 << (8 * n))))
+        bs = [_byte_of(e, k, n) for k in range(n)]
+        for k, b in enumerate(bs):
+            c.prove(f"byte{k}-in-range", And(b >= 0, b <= 255))
+        # telescoping steps first (each a one-step div/mod fact), then the sum is linear
+        for k in range(n):
+            lo = SInt(e.t % (256 ** k)) if k else 0
+            hi = SInt(e.t % (256 ** (k + 1)))
+            c.prove(f"step{k}: e mod 256^{k+1} == e mod 256^{k} + 256^{k}*byte{k}", hi == lo + (256 ** k) * bs[k])
+        c.prove("compose(bytes(e))==e", le_compose(lambda i: bs[i], 0, n) == e)
